@@ -55,3 +55,11 @@ ENTRY = {
         "Shutdown() and clone/marshal failures are not modelled",
     ],
 }
+
+# The duty store calls Deadliner.Add under its own lock on every Store and drains C() only inside Store: a deadliner
+# whose Add can block (e.g. while its output buffer is full) stalls every Store / Await* / PubKeyByAttestation for
+# good ("returns promptly" of C06). The real deadliner's stream (C16) is therefore part of this check, with the
+# monitors that say Add is always answered and a timer is always armed.
+ENTRY["streams"] = ENTRY["streams"] + [{"name": "deadline", "drive": "drive-deadline", "model": "drv-deadliner", "reset_ops": ["cfg"],
+                                        "n_quick": 10000, "seeds_quick": 1, "n_thorough": 100000, "seeds_thorough": 2}]
+ENTRY["monitor_sigs"] = list(ENTRY.get("monitor_sigs") or ["dutydb:"]) + ["deadliner:add_blocked", "deadliner:no_timer_armed"]
